@@ -1,3 +1,5 @@
+//go:build !skip_c19
+
 package main
 
 import (
